@@ -3,7 +3,7 @@ import z3
 from vf import ops as O
 from vf.ops import And, Or, Not, ite, Implies
 from vf.tensor import Tn, Unsupported
-from vf.values import Opaque
+from vf.values import Opaque, StackList
 from vf.contract import Contract, same
 from vf.world import LoopSpec, defined_loop
 from vf.spec import spec_tensor
@@ -100,6 +100,347 @@ class Nonlinear(Contract):
         return [('summation-to-delta', O.forall(m.shape, complete))]
 
 
+# ------------------------------------------------------------------------------------------------
+# deep_lift_shap: the scheduling loop (C06), the hook protocol (C07) and the composition of the
+# per-pair multipliers into attributions (C04/C05) — whole function under contract.
+
+def _row(t, e):
+    """row e of t as a tensor with leading dimension 1"""
+    return spec_tensor([1] + list(t.shape[1:]), lambda b, *i: t.elem(e, *i), t.kind)
+
+
+class DeepLiftShap(Contract):
+    """For every batch size, number of examples and number of references: the pairs (example e,
+    reference j) are processed in the order e*ns + j; pair p is evaluated with X[p // ns], its own
+    reference (references[p // ns, p % ns], or references(X[p // ns], random_state + p % ns)) and its own
+    extra arguments; result[e] combines exactly the ns pairs of example e (mean of the projected
+    multipliers, masked by X[e] unless hypothetical; the raw multipliers with raw_outputs).  Hence the
+    result does not mention the batch size or any other example.  On every exit, normal or exceptional
+    (model forward, backward, reference generator, hook registration), the DeepLIFT hooks are removed."""
+    qualname = 'tangermeme.deep_lift_shap.deep_lift_shap'
+    props = ('C06', 'C07', 'C04', 'C05')
+    use_at_calls = False
+
+    def configs(self):
+        return [dict(refs='tensor', na=0, mode='processed', rr=False),
+                dict(refs='tensor', na=1, mode='raw', rr=False),
+                dict(refs='seeded', na=0, mode='hypothetical', rr=True),
+                dict(refs='seeded', na=1, mode='processed', rr=True),
+                dict(refs='unseeded', na=0, mode='processed', rr=False)]
+
+    def cfg_name(self, cfg):
+        return '%s,args=%d,%s%s' % (cfg['refs'], cfg['na'], cfg['mode'], ',return_references' if cfg['rr'] else '')
+
+    def scopes(self, cfg):
+        return [{'default': 2, 'n_shuffles': 2, 'ns': 2, 'batch_size': 3}, {'default': 2, 'N': 3, 'n_shuffles': 2, 'ns': 2, 'batch_size': 1},
+                {'default': 2, 'n_shuffles': 3, 'ns': 3, 'batch_size': 2}, {'default': 2, 'n_shuffles': 2, 'ns': 2, 'batch_size': 5}]
+
+    def make_args(self, cfg, A):
+        from vf.world import RowWise
+        N, Ad, Ld, T = A.dim('N', 1), A.dim('A', 1), A.dim('L', 1), A.dim('T', 1)
+        X = A.tensor('X', 3, 'real', shape=[N, Ad, Ld])
+        rw = RowWise('M', None, 'tuple', [[T]], recording=A.scope is not None)
+        model = Opaque('M', 'model', {'rowwise': rw, 'training': z3.Bool('M.training0'), 'require_eval_nograd': False,
+                                      'n_args': cfg['na'], 'types': ['model'], 'may_raise': True})
+        args = None if cfg['na'] == 0 else tuple(A.tensor('arg%d' % i, 2, 'real', shape=[N, A.dim('arg%d.d1' % i, 1)]) for i in range(cfg['na']))
+        target = A.int('target')
+        A.assume(target >= 0, target < T)
+        A.ctx.ghost['dls_target'] = target
+        bs = A.int('batch_size', lo=1)
+        ns = A.int('n_shuffles', lo=1)
+        seed = None
+        if cfg['refs'] == 'tensor':
+            references = A.tensor('references', 4, 'real', shape=[N, A.dim('ns', 1), Ad, Ld])
+        else:
+            references = Opaque('SHUF', 'shuffle_fn', {'types': ['function'], 'recording': A.scope is not None, 'may_raise': True})
+            seed = A.int('seed') if cfg['refs'] == 'seeded' else None
+        kw = dict(args=args, target=target, batch_size=bs, references=references, n_shuffles=ns, return_references=cfg['rr'],
+                  hypothetical=cfg['mode'] == 'hypothetical', raw_outputs=cfg['mode'] == 'raw', device='cpu', random_state=seed,
+                  warning_threshold=A.real('warning_threshold'))
+        return [model, X], kw
+
+    # -------------------------------------------------------------- specification vocabulary
+    @staticmethod
+    def NS(env):
+        r = env['references']
+        return r.shape[1] if isinstance(r, Tn) else env['n_shuffles']
+
+    @staticmethod
+    def ref_row(env, e, j):
+        """the reference of pair (e, j) as a [1, A, L] tensor"""
+        r, X = env['references'], env['X']
+        if isinstance(r, Tn):
+            return spec_tensor([1] + list(X.shape[1:]), lambda b, c, l: r.elem(e, j, c, l), 'real')
+        from vf.world import shuffle_fn_result
+        seed = env['random_state']
+        if seed is None:
+            seed = env['_tape'](e, j)
+        sh = shuffle_fn_result(r, _row(X, e), 1, None, None, seed + j if env['random_state'] is not None else seed)
+        return spec_tensor([1] + list(X.shape[1:]), lambda b, c, l: sh.elem(0, 0, c, l), 'real')
+
+    @staticmethod
+    def pair(env, cfg, e, j):
+        """what pair (example e, reference j) contributes: a [A, L] element function"""
+        from vf.world import dl_grad
+        X, args, model = env['X'], env['args'], env['model']
+        R = DeepLiftShap.ref_row(env, e, j)
+        ins = [_row(X, e), R]
+        for a_ in (args or ()):
+            ins += [_row(a_, e), _row(a_, e)]
+        G = dl_grad(model, ins, env['target'], [1] + list(X.shape[1:]))
+        if cfg['mode'] == 'raw':
+            return lambda c, l: G.elem(0, c, l)
+        H = HypotheticalAttributions.spec(G, R)
+        return lambda c, l: H.elem(0, c, l)
+
+    @staticmethod
+    def pair_p(env, cfg, p):
+        ns = DeepLiftShap.NS(env)
+        return DeepLiftShap.pair(env, cfg, O.floordiv(p, ns), O.mod(p, ns))
+
+    @staticmethod
+    def attribution(env, cfg, e, by_pair_index=True):
+        """result[e]: element function over (c, l) — (j, c, l) with raw outputs"""
+        ns, X = DeepLiftShap.NS(env), env['X']
+        if by_pair_index:
+            P = lambda j: DeepLiftShap.pair_p(env, cfg, O.mul(e, ns) + j)
+        else:
+            P = lambda j: DeepLiftShap.pair(env, cfg, e, j)
+        if cfg['mode'] == 'raw':
+            return lambda j, c, l: P(j)(c, l)
+        mean = lambda c, l: O.truediv(Sum(0, ns, lambda j: P(j)(c, l), 'real'), ns)
+        if cfg['mode'] == 'hypothetical':
+            return mean
+        return lambda c, l: mean(c, l) * X.elem(e, c, l)
+
+    # -------------------------------------------------------------- contract clauses
+    environment_failures = ('model-forward', 'backward', 'reference-generator', 'register-hooks')
+
+    def pre(self, a, cfg):
+        return []
+
+    def _env(self, a):
+        env = dict(a.__dict__)
+        env['n_shuffles'] = self.NS(env)
+        return env
+
+    # ---- opaque pair values (hide the definition the loop proofs do not need; reveal = `pv_eq`)
+    PV = z3.Function('DLS.pair_value', z3.IntSort(), z3.IntSort(), z3.IntSort(), z3.IntSort(), z3.RealSort())
+
+    @staticmethod
+    def pv(e, j, c, l):
+        """PV(e, j, c, l) := pair(e, j)(c, l)  — a definition; its instances are revealed explicitly"""
+        return DeepLiftShap.PV(*[O.to_z3(x) for x in (e, j, c, l)])
+
+    @staticmethod
+    def pv_p(env, p, c, l):
+        ns = DeepLiftShap.NS(env)
+        return DeepLiftShap.pv(O.floordiv(p, ns), O.mod(p, ns), c, l)
+
+    @staticmethod
+    def pv_eq(env, cfg, x, e, j, c, l):
+        """x == PV(e, j, c, l), revealing the definition of PV where x is not itself a PV term"""
+        x = O.to_z3(x)
+        if z3.is_app_of(x, z3.Z3_OP_ITE):
+            return z3.If(x.arg(0), O.to_z3(DeepLiftShap.pv_eq(env, cfg, x.arg(1), e, j, c, l)), O.to_z3(DeepLiftShap.pv_eq(env, cfg, x.arg(2), e, j, c, l)))
+        if z3.is_app(x) and x.decl().eq(DeepLiftShap.PV):
+            return And(*[O.eq(a_, b_) for a_, b_ in zip(x.children(), (e, j, c, l))])
+        return O.smart_eq(x, O.to_z3(DeepLiftShap.pair(env, cfg, e, j)(c, l)))
+
+    @staticmethod
+    def attribution_pv(env, cfg, e):
+        """result[e] over the opaque pair values of the pairs e*ns .. e*ns + ns - 1"""
+        ns, X = DeepLiftShap.NS(env), env['X']
+        P = lambda j: (lambda c, l: DeepLiftShap.pv_p(env, O.mul(e, ns) + j, c, l))
+        if cfg['mode'] == 'raw':
+            return lambda j, c, l: P(j)(c, l)
+        mean = lambda c, l: O.truediv(Sum(0, ns, lambda j: P(j)(c, l), 'real'), ns)
+        if cfg['mode'] == 'hypothetical':
+            return mean
+        return lambda c, l: mean(c, l) * X.elem(e, c, l)
+
+    def post(self, a, r, cfg):
+        env = self._env(a)
+        X, ns = a.X, env['n_shuffles']
+        N = X.shape[0]
+        out = []
+        res = r[0] if cfg['rr'] else r
+        if cfg['rr'] and not (isinstance(r, tuple) and len(r) == 2):
+            return [('returns-(attributions, references)', False)]
+        if not isinstance(res, Tn):
+            return [('attributions-is-tensor', False)]
+        shape = [N, ns] + list(X.shape[1:]) if cfg['mode'] == 'raw' else list(X.shape)
+        if res.rank != len(shape):
+            return [('attributions-rank', False)]
+        out.append(('attributions:shape', And(*[O.eq(x, y) for x, y in zip(res.shape, shape)])))
+
+        def divmod_unique(e, j):
+            # lean/Lemmas.lean divmod_unique, instance for the pair index e*ns + j
+            return Implies(And(0 <= j, j < ns, ns >= 1), And(O.eq(O.floordiv(O.mul(e, ns) + j, ns), e), O.eq(O.mod(O.mul(e, ns) + j, ns), j)))
+        if cfg['refs'] != 'unseeded':
+            def el(e, *i):
+                c, l = i[-2], i[-1]
+                reveal = lambda j: And(divmod_unique(e, j), O.eq(self.pv(e, j, c, l), self.pair(env, cfg, e, j)(c, l)))
+                with O.sum_lemmas(reveal):
+                    goal = O.smart_eq(O.to_z3(res.elem(e, *i)), O.to_z3(self.attribution(env, cfg, e, by_pair_index=False)(*i)))
+                if cfg['mode'] == 'raw':
+                    return Implies(reveal(i[0]), goal)
+                return goal
+            out.append(('attributions:each-example-from-its-own-pairs-only', O.forall(shape, el)))
+        if cfg['rr']:
+            refs = r[1]
+            rshape = [N, ns] + list(X.shape[1:])
+            if not isinstance(refs, Tn) or refs.rank != 4:
+                return out + [('references-rank', False)]
+            out.append(('references:shape', And(*[O.eq(x, y) for x, y in zip(refs.shape, rshape)])))
+            if cfg['refs'] != 'unseeded':
+                out.append(('references:shuffle-j-of-example-e', O.forall(rshape, lambda e, j, c, l: Implies(divmod_unique(e, j), O.smart_eq(
+                    O.to_z3(refs.elem(e, j, c, l)), O.to_z3(self.ref_row(env, e, j).elem(0, c, l)))))))
+        return out
+
+    def path_post(self, a, cfg, ctx):
+        return [('hooks-removed-on-return', ctx.ghost.get('dls_hooks') is False),
+                ('hooks-were-registered-during-the-call', ('hooks_registered',) in ctx.events)]
+
+    def exc_post(self, a, cfg, ctx):
+        return [('hooks-removed-on-raise', ctx.ghost.get('dls_hooks', False) is False)]
+
+    # -------------------------------------------------------------- loop invariants
+    def loops(self):
+        def cfg_of(fr):
+            env = fr.env
+            refs = 'tensor' if isinstance(env['references'], Tn) else ('unseeded' if env['random_state'] is None else 'seeded')
+            mode = 'raw' if env['raw_outputs'] is True else ('hypothetical' if env['hypothetical'] is True else 'processed')
+            return dict(refs=refs, na=len(env['args'] or ()), mode=mode, rr=env['return_references'] is True)
+
+        def length(v):
+            return len(v) if isinstance(v, list) else v.count
+
+        def item_shape(env, cfg):
+            X, ns = env['X'], env['n_shuffles']
+            return ([ns] if cfg['mode'] == 'raw' else []) + list(X.shape[1:])
+
+        # ---- the lists as functions of: pairs appended to Xi/rj so far (done), c = len(Xi), z
+        #      f = done - c pairs have been evaluated; z examples emitted; attr_ holds pairs z*ns .. f-1
+        def defs(fr, done, c, z, f=None):
+            env, cfg = fr.env, cfg_of(fr)
+            X, ns = env['X'], env['n_shuffles']
+            if f is None:
+                f = done - c
+            q = f - O.mul(z, ns)
+            d = {}
+            if cfg['refs'] == 'unseeded':
+                # an unseeded generator: the references (hence every value) are not a function of the inputs;
+                # only the bookkeeping (counts, shapes) is under contract in this configuration
+                fresh = lambda nm, shp: Tn.param(O.fresh_name(nm), len(shp), 'real', 'torch', shape=shp)
+                d['Xi'] = StackList(c, [spec_tensor([c], lambda k: O.floordiv(done - c + k, ns), 'int')])
+                d['rj'] = StackList(c, [spec_tensor([c], lambda k: O.mod(done - c + k, ns), 'int')])
+                d['attr_'] = StackList(q, [fresh('attr_', [q] + list(X.shape[1:]))])
+                d['attributions'] = StackList(z, [fresh('attributions', [z] + item_shape(env, cfg))])
+                if cfg['rr']:
+                    d['references_'] = StackList(f, [fresh('references_', [f] + list(X.shape[1:]))])
+                return d
+            d['Xi'] = StackList(c, [spec_tensor([c], lambda k: O.floordiv(done - c + k, ns), 'int')])
+            d['rj'] = StackList(c, [spec_tensor([c], lambda k: O.mod(done - c + k, ns), 'int')])
+            d['attr_'] = StackList(q, [spec_tensor([q] + list(X.shape[1:]), lambda k, cc, l: DeepLiftShap.pv_p(env, O.mul(z, ns) + k, cc, l), 'real')])
+            ish = item_shape(env, cfg)
+            d['attributions'] = StackList(z, [spec_tensor([z] + ish, lambda e, *i: DeepLiftShap.attribution_pv(env, cfg, e)(*i), 'real')])
+            if cfg['rr']:
+                d['references_'] = StackList(f, [spec_tensor([f] + list(X.shape[1:]), lambda p, cc, l: DeepLiftShap.ref_row(
+                    env, O.floordiv(p, ns), O.mod(p, ns)).elem(0, cc, l), 'real')])
+            return d
+
+        def list_same(cfg, a, b, name):
+            if cfg['refs'] == 'unseeded' and name in ('attributions', 'references_'):
+                # counts and item shapes only
+                if isinstance(a, list):
+                    return [(name + ':count', O.eq(len(a), b.count))] if len(a) == 0 else [(name + ':concrete', False)]
+                return [(name + ':count', O.eq(a.count, b.count)),
+                        (name + ':item-shape', And(*[O.eq(x, y) for x, y in zip(a.views[0].shape[1:], b.views[0].shape[1:])]))]
+            return same(a, b, name)
+
+        def attr_clause(fr, lst, z, q):
+            """attr_ holds the opaque values of pairs z*ns + k, k < q (definition of PV revealed for new rows)"""
+            env, cfg = fr.env, cfg_of(fr)
+            ns, X = env['n_shuffles'], env['X']
+            if isinstance(lst, list):
+                if len(lst) != 0:
+                    raise Unsupported("concrete non-empty attr_ at a loop head")
+                return [('attr_:count', O.eq(q, 0))]
+            V = lst.views[0]
+            out = [('attr_:count', O.eq(lst.count, q)), ('attr_:item-shape', And(*[O.eq(x, y) for x, y in zip(V.shape[1:], X.shape[1:])]))]
+            if cfg['refs'] == 'unseeded':
+                return out
+
+            def el(k, cc, l):
+                p = O.mul(z, ns) + k
+                return DeepLiftShap.pv_eq(env, cfg, V.elem(k, cc, l), O.floordiv(p, ns), O.mod(p, ns), cc, l)
+            out.append(('attr_:row-k-is-pair-z*ns+k', O.forall([q] + list(X.shape[1:]), el)))
+            return out
+
+        def ghosts(fr, it):
+            g = fr.ctx.ghost.setdefault('dls_loop', {})
+            key = str(it)
+            if key not in g:
+                g[key] = (O.fresh_int('c'), O.fresh_int('z'))
+            return g[key]
+
+        def make_abs(name):
+            def ab(fr, v, it):
+                c, z = ghosts(fr, it)
+                if name == 'z':
+                    return z
+                d = defs(fr, it, c, z)
+                return d.get(name, v)
+            return ab
+
+        def outer_inv(E, fr):
+            env, cfg = fr.env, cfg_of(fr)
+            it, ns, bs = E.it, env['n_shuffles'], env['batch_size']
+            n = env['n']
+            c, z = length(env['Xi']), env['z']
+            f = it - c
+            out = [('pending-pairs-below-batch-size', And(0 <= c, c < bs, c <= it)),
+                   ('nothing-pending-at-the-end', Implies(O.eq(it, n), O.eq(c, 0))),
+                   ('examples-emitted-so-far', And(0 <= z, O.mul(z, ns) <= f, f < O.mul(z, ns) + ns))]
+            d = defs(fr, it, c, z)
+            out.extend(attr_clause(fr, env['attr_'], z, f - O.mul(z, ns)))
+            for name in ('Xi', 'rj', 'attributions', 'references_'):
+                if name in d:
+                    out.extend(list_same(cfg, env[name], d[name], name))
+            return out
+
+        outer = LoopSpec(outer_inv, abstract={k: make_abs(k) for k in ('Xi', 'rj', 'attr_', 'attributions', 'references_', 'z')})
+
+        # ---- emission loop: Q = pairs evaluated so far is fixed; the same definitions, z advances
+        def inner_abs(name):
+            def ab(fr, v, it):
+                _, z = ghosts(fr, ('inner', str(it)))
+                if name == 'z':
+                    return z
+                Q = fr.ctx.ghost['dls_Q']
+                return defs(fr, None, 0, z, f=Q)[name]
+            return ab
+
+        def inner_inv(E, fr):
+            env = fr.env
+            ns, z = env['n_shuffles'], env['z']
+            if E.where == 'init':
+                # pairs evaluated so far: those emitted or waiting in attr_ at loop entry
+                fr.ctx.ghost['dls_Q'] = O.mul(z, ns) + length(env['attr_'])
+            Q = fr.ctx.ghost['dls_Q']
+            d = defs(fr, None, 0, z, f=Q)
+            out = [('emitted-examples-fit', And(0 <= z, O.mul(z, ns) <= Q))]
+            out.extend(attr_clause(fr, env['attr_'], z, Q - O.mul(z, ns)))
+            out.extend(list_same(cfg_of(fr), env['attributions'], d['attributions'], 'attributions'))
+            return out
+
+        inner = LoopSpec(inner_inv, abstract={k: inner_abs(k) for k in ('attr_', 'attributions', 'z')})
+        trivial = LoopSpec(lambda E, fr: [])
+        return {2: trivial, 3: outer, 4: inner, 5: trivial}
+
+
 def register(world):
     world.register(HypotheticalAttributions())
     world.register(Nonlinear())
+    world.register(DeepLiftShap())
